@@ -180,6 +180,10 @@ fn build_item(i: &Item) -> P {
                         Strict::Strict => a = a.strict(),
                         Strict::NonStrict => a = a.non_strict(),
                     }
+                    // a primitive parser shared between two places is a clone of the first one
+                    if id % 2 == 1 {
+                        a = a.clone();
+                    }
                     a.map(move |x| V::field(id, $f(x))).boxed()
                 }};
             }
